@@ -111,6 +111,7 @@ type attrCall struct {
 }
 
 var effCache = map[*Prog]*Effect{}
+var debugHook func(*Effect)
 
 // runEffect computes (once per program) all summaries and reports.
 func runEffect(p *Prog) *Effect {
@@ -489,15 +490,24 @@ func (a *fa) heapStore(addr ssa.Value, ty types.Type, t fact) {
 		a.heap[key] = n
 		a.heapCh = true
 	}
-	glob := oset{p: o.p & (bitSRC | bitCACHE), g: o.g}
+	glob := oset{p: o.p & (bitSRC | bitCACHE)} // global origins are not propagated through the program-wide field heap (too coarse); see DESIGN §3.1
 	if n := a.e.heap[key].or(glob); n != a.e.heap[key] {
+		if debugHeap {
+			fmt.Printf("HEAP %s gains %x/%x in %s\n", key, glob.p, glob.g, a.f)
+		}
 		a.e.heap[key] = n
 		a.e.changed = true
 	}
 }
 
+var debugHeap = false
+
 func (a *fa) heapLoad(addr ssa.Value, ty types.Type) oset {
 	var o oset
+	if g, ok := addr.(*ssa.Global); ok {
+		k := "G:" + g.String()
+		return a.heap[k].or(a.e.heap[k])
+	}
 	for _, k := range heapKeys(addr, ty) {
 		o = o.or(a.heap[k]).or(a.e.heap[k])
 	}
@@ -1265,8 +1275,11 @@ func (a *fa) heapStoreKey(key string, t fact) {
 		a.heap[key] = n
 		a.heapCh = true
 	}
-	glob := oset{p: o.p & (bitSRC | bitCACHE), g: o.g}
+	glob := oset{p: o.p & (bitSRC | bitCACHE)} // global origins are not propagated through the program-wide field heap (too coarse); see DESIGN §3.1
 	if n := a.e.heap[key].or(glob); n != a.e.heap[key] {
+		if debugHeap {
+			fmt.Printf("HEAP %s gains %x/%x in %s\n", key, glob.p, glob.g, a.f)
+		}
 		a.e.heap[key] = n
 		a.e.changed = true
 	}
